@@ -1093,11 +1093,36 @@ class CircuitDAG(CircuitBase):
                     reg_type=op["q_registers_type"][0],
                 )
             else:
-                gate = ops.name_to_class_map(op["type"])
-                gate = gate()
-                gate.q_registers = op["q_registers"]
-                gate.q_registers_type = op["q_registers_type"]
-                gate.c_registers = op["c_registers"]
+                gate_class = ops.name_to_class_map(op["type"])
+                q_registers = op["q_registers"]
+                q_registers_type = op["q_registers_type"]
+                # construct the operation on its registers, so that the attributes compilers read
+                # (register / control / target and their types) agree with the registers
+                if issubclass(gate_class, ops.OneQubitOperationBase):
+                    gate = gate_class(
+                        register=q_registers[0], reg_type=q_registers_type[0]
+                    )
+                elif issubclass(gate_class, ops.ControlledPairOperationBase):
+                    gate = gate_class(
+                        control=q_registers[0],
+                        control_type=q_registers_type[0],
+                        target=q_registers[1],
+                        target_type=q_registers_type[1],
+                    )
+                elif issubclass(gate_class, ops.ClassicalControlledPairOperationBase):
+                    gate = gate_class(
+                        control=q_registers[0],
+                        control_type=q_registers_type[0],
+                        target=q_registers[1],
+                        target_type=q_registers_type[1],
+                        c_register=op["c_registers"][0],
+                    )
+                else:
+                    gate = gate_class(
+                        register=q_registers[0],
+                        reg_type=q_registers_type[0],
+                        c_register=op["c_registers"][0],
+                    )
 
             circuit.add(gate)
 
